@@ -1,6 +1,8 @@
 /-
-Scratch prototype: hot/cold histogram protocol (C02/C03), relational step model
-with a list of in-flight tasks ("most general client"), ghost assignment lists.
+Hot/cold histogram protocol (C02/C03): relational step model with a list of in-flight tasks
+("most general client": tasks are spawned at any time, anywhere in the list), ghost assignment lists.
+A task that holds the collect lock without having flipped (`colLocked`) may also `release` it again:
+that is `get_sample_sum`, which reads the hot shard's sum under the lock.
 -/
 namespace Hp
 
@@ -87,10 +89,11 @@ def modAsg (a : Bool → List Obs) (s : Bool) (f : List Obs → List Obs) : Bool
   fun b => if b = s then f (a b) else a b
 
 inductive Step (k : Nat) : St → St → Prop
-  | spawnObs (s : St) (o : Obs) (hw : 1 ≤ o.w) (hu : WfUpd k o.upd) :
-      Step k s { s with tasks := s.tasks ++ [Task.obsStart o] }
-  | spawnCol (s : St) :
-      Step k s { s with tasks := s.tasks ++ [Task.colWant] }
+  | spawnObs (s : St) (pre post : List Task) (o : Obs) (hw : 1 ≤ o.w) (hu : WfUpd k o.upd)
+      (ht : s.tasks = pre ++ post) :
+      Step k s { s with tasks := pre ++ Task.obsStart o :: post }
+  | spawnCol (s : St) (pre post : List Task) (ht : s.tasks = pre ++ post) :
+      Step k s { s with tasks := pre ++ Task.colWant :: post }
   | claim (s : St) (pre post : List Task) (o : Obs)
       (ht : s.tasks = pre ++ Task.obsStart o :: post) :
       Step k s { s with
@@ -112,6 +115,9 @@ inductive Step (k : Nat) : St → St → Prop
   | acquire (s : St) (pre post : List Task)
       (ht : s.tasks = pre ++ Task.colWant :: post) (hl : s.lock = false) :
       Step k s { s with tasks := pre ++ Task.colLocked :: post, lock := true }
+  | release (s : St) (pre post : List Task)
+      (ht : s.tasks = pre ++ Task.colLocked :: post) :
+      Step k s { s with tasks := pre ++ post, lock := false }
   | flip (s : St) (pre post : List Task)
       (ht : s.tasks = pre ++ Task.colLocked :: post) :
       Step k s { s with
